@@ -57,7 +57,7 @@ STAGES = {
     "C01": [S("sweep", "^TestC01Sweep$", shards=(3, 9)),
             S("roundtrip", "^TestC01$", quick=250, thorough=4000, shards=(6, 16), timeout=("15m", "90m"))],
     "C02": [S("programs", "^TestC02$", quick=1500, thorough=6000, shards=(4, 16))],
-    "C03": [S("regress", "^TestC03Regress$"),
+    "C03": [S("regress", "^TestC03Regress$|^TestC03Flood$"),
             S("structured", "^TestC03$", quick=1500, thorough=10000, shards=(4, 16)),
             S("raw", "^TestC03Raw$", quick=8000, thorough=60000, shards=(4, 16)),
             S("fuzz", "^$", tiers=("thorough",), shards=(1, 1), fuzz={"target": "^FuzzC03$", "time": {"quick": "10s", "thorough": "180s"}}, timeout=("10m", "30m"))],
